@@ -306,3 +306,23 @@ package compose
 //@   ensures[path] pathOf(result) != nil && fresh(pathOf(result)) && len(pathOf(result).path) >= 1 && pathOf(result).path[len(pathOf(result).path) - 1] == key
 //@   ensures[others] cpOf(result) == cpOf(ctx) && ctxValue(result, "stateKey") == ctxValue(ctx, "stateKey")
 //@   ensures[parent_path_untouched] pathOf(ctx) != nil ==> forall(i int :: 0 <= i && i < cap(pathOf(ctx).path) ==> mem(pathOf(ctx).path, i) == old(mem(pathOf(ctx).path, i)))
+
+//@ spec ctxOK(ctx context.Context) bool = is(ctxValue(ctx, "nodePathKey"), "*NodePath") ==> pathOf(ctx) != nil
+
+//@ func (*runner).createTasks
+//@   props C01 C05 C16
+//@   requires r != nil && ctxOK(ctx)
+//@   ensures[err] result1 != nil ==> exists(k string :: in(k, nodeMap) && !in(k, r.chanSubscribeTo))
+//@   ensures[noerr] (forall(k string :: in(k, nodeMap) ==> in(k, r.chanSubscribeTo))) ==> result1 == nil
+//@   ensures[len] result1 == nil ==> len(result0) == len(nodeMap)
+//@   ensures[tasks] result1 == nil ==> forall(i int :: 0 <= i && i < len(result0) ==> result0[i] != nil && in(result0[i].nodeKey, nodeMap) && result0[i].input == nodeMap[result0[i].nodeKey] && result0[i].call == r.chanSubscribeTo[result0[i].nodeKey] && result0[i].option == optMap[result0[i].nodeKey] && !result0[i].skipPreHandler && result0[i].err == nil)
+//@   ensures[cover] result1 == nil ==> forall(k string :: in(k, nodeMap) ==> exists(i int :: 0 <= i && i < len(result0) && result0[i].nodeKey == k))
+//@   ensures[fresh_start] @C05 result1 == nil ==> forall(i int :: 0 <= i && i < len(result0) ==> cpOf(result0[i].ctx) == nil)
+//@   loop 1:
+//@     modifies fresh()
+//@     invariant[fresh] nextTasks == nil || fresh(nextTasks)
+//@     invariant[len] len(nextTasks) == $n
+//@     invariant[tasks] forall(i int :: 0 <= i && i < len(nextTasks) ==> nextTasks[i] != nil && fresh(nextTasks[i]) && in(nextTasks[i].nodeKey, $seen) && nextTasks[i].input == nodeMap[nextTasks[i].nodeKey] && nextTasks[i].call == r.chanSubscribeTo[nextTasks[i].nodeKey] && nextTasks[i].option == optMap[nextTasks[i].nodeKey] && !nextTasks[i].skipPreHandler && nextTasks[i].err == nil)
+//@     invariant[cover] forall(k string :: in(k, $seen) ==> exists(i int :: 0 <= i && i < len(nextTasks) && nextTasks[i].nodeKey == k))
+//@     invariant[subscribed] forall(k string :: in(k, $seen) ==> in(k, r.chanSubscribeTo))
+//@     invariant[fresh_start] @C05 forall(i int :: 0 <= i && i < len(nextTasks) ==> cpOf(nextTasks[i].ctx) == nil)
